@@ -38,7 +38,8 @@ FIX_COMMITS = ['c5b9684 (C05 DataReader EOD==0)', 'c3bb002 (C17 ESC prefix on 1x
                'df6862c (C10 phantom reply after a greeting identity that cannot be sent)',
                '0629b4a (C14 quadratic command-line pattern)', '90066a9 (C14 quadratic EHLO-line pattern)',
                '10439e5 (C11 surplus HTTP response taken for the answer to the next request)',
-               'f922424 (C08 lenient base64 decoding of AUTH responses)']
+               'f922424 (C08 lenient base64 decoding of AUTH responses)',
+               '1eac55c (C19 HttpRelay attempt stranded when its client fails inside a request)']
 
 ENGINES = [
     {'name': 'runner', 'path': 'vf/runner.py', 'serves_properties': [],
